@@ -55,3 +55,32 @@ meta = {'property': pid, 'origin': 'independent sub-agent given only the propert
         'detected_by': None}
 json.dump(meta, open(f'{dst}/meta.json', 'w'), indent=1)
 print('stored', dst)
+# ---- optional twin: the same refactoring without the defect (delivered by the agent as twin.diff) -------------------------------------------
+twin = f'{out}/twin.diff'
+if os.path.exists(twin):
+    sh('git checkout -q -- . && git clean -fdq wgsl_to_wgpu example')
+    rc, o = sh(f'git apply {twin}')
+    tl = {'applies': rc == 0}
+    if rc == 0:
+        rc, o = sh('cargo test --workspace --no-fail-fast --offline 2>&1')
+        r = results(o)
+        tl['suite'] = r
+        t_suite = rc == 0 and sum(int(x[1]) for x in r) >= 56 and all(x[0] == 'ok' for x in r)
+        shutil.copy(f'{out}/demo.rs', demo_dst)
+        for f in extra:
+            src = f'{out}/{f}'
+            if os.path.isfile(src) and f != 'twin.diff':
+                shutil.copy(src, f'{wt}/wgsl_to_wgpu/tests/{f}')
+        rc3, o3 = sh('cargo test -p wgsl_to_wgpu --test demo --offline 2>&1', timeout=1200)
+        tl['demo'] = results(o3)
+        ok_t = t_suite and rc3 == 0
+        if ok_t:
+            os.makedirs('/verif/selftest/twins', exist_ok=True)
+            shutil.copy(twin, f'/verif/selftest/twins/{pid}-{name}.diff')
+        print(json.dumps({'twin': tl, 'twin_ok': ok_t}))
+    else:
+        print(json.dumps({'twin': tl, 'twin_ok': False}))
+    sh('git checkout -q -- . && git clean -fdq wgsl_to_wgpu example')
+    # twin.diff is not part of the seed directory's deliverables to replay
+    if os.path.exists(f'{dst}/twin.diff'):
+        os.unlink(f'{dst}/twin.diff')
